@@ -108,7 +108,7 @@ def c13_replay(ctx, rep):
 
 
 # ------------------------------------------------------------------------------------------ C12
-DEVS = ["PushLast", "Sort", "Take", "Append", "Filter"]
+DEVS = ["PushLast", "Sort", "Take", "Append", "Filter", "Collect"]
 
 
 def hist_from_dump(path):
